@@ -229,7 +229,11 @@ func c06HookLine(h *c06Hook) string {
 		if b.execSync {
 			e = 1
 		}
-		ks = append(ks, fmt.Sprintf("%s:%d:%d", strings.TrimPrefix(b.name, "b"), b.group, e))
+		q := 0
+		if b.queue != "" && h.v1 {
+			q, _ = strconv.Atoi(strings.TrimPrefix(b.queue, "q"))
+		}
+		ks = append(ks, fmt.Sprintf("%s:%d:%d:%d", strings.TrimPrefix(b.name, "b"), b.group, e, q))
 	}
 	fl := ""
 	for _, f := range h.fails {
@@ -524,6 +528,33 @@ func c06Run(r *Run, c *Case, rng *Rng, hooks []*c06Hook, events bool) {
 	}
 	c.Op("run", "log="+strings.Join(startup, ";")+";")
 	c.Oracle("log " + strings.Join(all, ";") + ";")
+
+	// in which queue did the hook runs of each binding happen? (labels of the hook_run_seconds histogram)
+	var triples []string
+	if mfs, err := ms.Gatherer.Gather(); err == nil {
+		for _, mf := range mfs {
+			if mf.GetName() != "c06_hook_run_seconds" {
+				continue
+			}
+			for _, m := range mf.GetMetric() {
+				lb := map[string]string{}
+				for _, l := range m.GetLabel() {
+					lb[l.GetName()] = l.GetValue()
+				}
+				h := byPath[lb["hook"]]
+				if h == nil || m.GetHistogram().GetSampleCount() == 0 || !strings.HasPrefix(lb["binding"], "b") {
+					continue
+				}
+				q := "0"
+				if lb["queue"] != "main" {
+					q = strings.TrimPrefix(lb["queue"], "q")
+				}
+				triples = append(triples, fmt.Sprintf("%d/%s/%s", h.id, strings.TrimPrefix(lb["binding"], "b"), q))
+			}
+		}
+		sort.Strings(triples)
+		c.Oracle("queues " + strings.Join(all, ";") + "; " + strings.Join(triples, ";") + ";")
+	}
 }
 
 func c06Classify(c *Case, hooks []*c06Hook) {
@@ -669,6 +700,7 @@ func runC06(r *Run) {
 		c.Desc = "corpus: grouped head Synchronization followed by an ungrouped binding with executeHookOnSynchronization=false (repaired defect: combine merged the follower and delivered its context)"
 		hs := mk(&c06Hook{path: "hook.sh", v1: true, kube: []c06Bind{{name: "b1", group: 1, execSync: true}, {name: "b2", execSync: false}, {name: "b3", group: 1, execSync: true}}})
 		c06Classify(c, hs)
+		c.Nontrivial = true
 		c06Run(r, c, rng, hs, false)
 	})
 	r.One(2, func(c *Case, rng *Rng) {
